@@ -5,6 +5,7 @@ CONSTANTS
   Segs <- SegsThorough
   Depth = 3
   Mode = "fixed"
+  StopAtOOR = FALSE
   CowAlphabet = {0, 1, 127, 128, 255}
   CowMaxLen = 3
 INVARIANTS ApplyMeetsPost NoEmptyChunk LenIsSum PanicOnlyOutOfRange Emit
